@@ -202,8 +202,11 @@ class Roles:
             elif hc and any(r.o and strip_bitcasts(f, r.o[0]) in {c.ref for c in hc} for r in f.returns()):
                 self.checked.append(f)        # returns the (range-checked) index instead of the bucket
         cnames = {f.name for f in self.checked}
+        cg = callgraph(mod)
         for f in fns:
             calls_checked = [c for c in f.all_insts() if c.op == 'call' and c.callee in cnames]
+            # ... or reaches it through private helpers / a visitor whose address it hands to a traversal helper
+            reaches_checked = bool(calls_checked) or bool((reach(cg, f.name) - {f.name}) & cnames)
             # stores `cst` of a bucket reached through a pointer parameter
             st_cst = []
             for s in f.all_insts():
@@ -211,7 +214,7 @@ class Roles:
                     a = resolve_addr(f, s.o[1] if s.op == 'store' else s.o[0])
                     if a.fsteps[-1:] == (('cstl_hash_bucket', 'cst'),) and isinstance(a.root, str) and a.root.startswith('$'):
                         st_cst.append(s)
-            if st_cst and calls_checked:
+            if st_cst and reaches_checked and f not in self.checked:
                 self.cleaner.append(f)
             for s in f.all_insts():
                 if s.op == 'store' and fld(f, s) == 'bucket.rh.clean':
@@ -360,12 +363,12 @@ def classify_pa(f, ref, at_ins, field, cover=False, completer_dominates=None):
                 return True, results[0][1]
         return ok, w
 
-    def _leaf_ok1(v, facts, where):
+    def _leaf_ok1(v, facts, where, path=None):
         vi = f.get(v) if isinstance(v, str) else None
         vi0 = vi
         while vi is not None and vi.op in ('zext', 'trunc', 'bitcast'):
             vi = f.get(vi.o[0])
-        p = fld(f, vi) if vi is not None else None
+        p = path if path is not None else (fld(f, vi) if vi is not None else None)
         pend = _pending_facts(f, facts)
         if p == cur:
             if completer_dominates is not None and completer_dominates(vi):
@@ -388,6 +391,38 @@ def classify_pa(f, ref, at_ins, field, cover=False, completer_dominates=None):
                 return False, 'uses the pending count as a bound without knowing it is the larger one (%s)' % where
             return False, 'reads the pending %s on a path where no rehash is known to be pending (%s)' % (field, where)
         return False, 'value is not a read of %s or %s (%s)' % (cur, pen, where)
+
+    # one load through a pointer that was chosen between the two count / function fields
+    core = ins
+    while core is not None and core.op in ('zext', 'trunc', 'bitcast'):
+        core = f.get(core.o[0]) if isinstance(core.o[0], str) else None
+    ai = f.get(strip_bitcasts(f, core.o[0])) if (core is not None and core.op == 'load' and isinstance(core.o[0], str)) else None
+    if ai is not None and ai.op in ('phi', 'select'):
+        from .facts import cond_atoms
+
+        def addr_path(a):
+            ra = resolve_addr(f, a) if isinstance(a, str) else None
+            return ra.path if (ra is not None and ra.fsteps and ra.fsteps[0][0] == 'cstl_hash') else None
+        alts = []
+        if ai.op == 'phi':
+            for v, bb in zip(ai.o, ai.x['bb']):
+                alts.append((v, fc.edge_facts(f.bb[bb], ai.block), 'edge %s->%s' % (bb, ai.block.name)))
+        else:
+            base = set(fc.block_facts(ai.block))
+            alts.append((ai.o[1], frozenset(base | set(cond_atoms(f, ai.o[0], True)[0])), 'select true arm'))
+            alts.append((ai.o[2], frozenset(base | set(cond_atoms(f, ai.o[0], False)[0])), 'select false arm'))
+        why = []
+        for v, facts, where in alts:
+            pth = addr_path(v)
+            if pth is None:
+                return False, 'the field read is chosen through a pointer that is not a field of the table (%s)' % where
+            ok, w = _leaf_ok1(core.ref, facts, where, path=pth)
+            if not ok:
+                return False, w
+            why.append(w)
+        if not any(s_.op == 'store' and fld(f, s_) in (cur, pen) for s_ in f.all_insts()):
+            return True, '; '.join(why)
+        return False, 'the field is read through a chosen pointer in a function that also writes it'
 
     if ins is not None and ins.op == 'phi':
         why = []
